@@ -703,13 +703,15 @@ impl<'a> Searcher<'a> {
 
                                         if file_type.is_symlink() {
                                             if let Ok(resolved) = std::fs::read_link(&path) {
-                                                ok = true;
                                                 // a relative target is relative to the directory of the link
                                                 path = if resolved.is_relative() {
                                                     dir.join(resolved)
                                                 } else {
                                                     resolved
                                                 };
+                                                // only directories are descended into: links to files, dangling
+                                                // links and link loops are listed, nothing more
+                                                ok = path.is_dir();
                                             }
                                         } else if file_type.is_dir() {
                                             ok = true;
